@@ -40,6 +40,10 @@ pub struct Case {
     /// cycled until the data is consumed
     pub ops: Vec<Op>,
     pub sizes: Vec<u32>,
+    /// flush near the window end: the first write is sized so that it ends `n` bytes in front of the physical end
+    /// of the encoder's window buffer (measured with a probe run through the crate's hook), then flush, then the rest
+    #[serde(default)]
+    pub flush_at_window_end: Option<u16>,
 }
 
 pub struct C07;
@@ -241,10 +245,54 @@ impl Property for C07 {
     const ID: &'static str = "C07";
 
     fn families(_tier: Tier) -> u32 {
-        8
+        9
     }
 
     fn strategy(tier: Tier, family: u32) -> BoxedStrategy<Case> {
+        if family == 8 {
+            // LZMA2 / LZMA writer, small dictionary, compressible data longer than the window buffer, flush with the
+            // window nearly full (up to nice_len positions pending), then more data: the next fill moves the window
+            let seg = prop_oneof![
+                (2u8..6, any::<u64>()).prop_map(|(alphabet, seed)| Seg::Tiles { len: 0, alphabet, seed }),
+                (1u16..5000, any::<u64>()).prop_map(|(period, seed)| Seg::Periodic { len: 0, period, seed }),
+                any::<u64>().prop_map(|seed| Seg::Text { len: 0, seed }),
+                any::<u64>().prop_map(|seed| Seg::Mixed { len: 0, seed }),
+            ];
+            return (
+                seg,
+                opts_strategy(1 << 14, true),
+                prop_oneof![Just(4096u32), Just(8192u32), 4096u32..=16_384, Just(65_536u32)],
+                prop_oneof![3 => Just(0u8), 1 => Just(1u8)],
+                prop_oneof![2 => Just(273u32), 1 => 64u32..=273, 1 => 8u32..64],
+                any::<bool>(),
+                0u16..700,
+                10_000u32..60_000,
+                read_sizes_strategy(),
+            )
+                .prop_map(|(mut seg, mut opts, dict, mode, nice, lzma1, back, extra, sizes)| {
+                    opts.dict_size = dict;
+                    opts.mode = mode;
+                    opts.nice_len = nice;
+                    // window buffer: dict + extra before/after + max(dict/2 + 256 KiB, 512 MiB cap); the data must reach beyond it
+                    let len = dict + dict / 2 + (256 << 10) + 8192 + extra;
+                    match &mut seg {
+                        Seg::Tiles { len: l, .. } | Seg::Periodic { len: l, .. } | Seg::Text { len: l, .. } | Seg::Mixed { len: l, .. } => *l = len,
+                        _ => {}
+                    }
+                    Case {
+                        data: Data { segs: vec![seg] },
+                        target: Target::Lzma {
+                            framing: if lzma1 { Framing::RawEos } else { Framing::Lzma2 { chunk: None } },
+                            opts,
+                            preset: None,
+                        },
+                        ops: vec![Op::W(u32::MAX)],
+                        sizes,
+                        flush_at_window_end: Some(back),
+                    }
+                })
+                .boxed();
+        }
         let data = if family % 8 == 6 {
             // code-like data for the BCJ filters
             proptest::collection::vec(
@@ -266,6 +314,7 @@ impl Property for C07 {
                 target,
                 ops,
                 sizes,
+                flush_at_window_end: None,
             })
             .boxed()
     }
@@ -275,7 +324,7 @@ impl Property for C07 {
     }
 
     fn rule() -> &'static str {
-        "history = cycle of Write(n) / Write(empty) / Flush operations partitioning a generated input, for LZMAWriter (5 framings), LZMA2Writer (+/- chunk size, +/- preset dictionary), XZWriter (+/- block size, +/- pre-filters), LZIPWriter (+/- member size), BCJWriter x8 and DeltaWriter; then the produced stream is read back with a generated cycle of destination sizes including 0 and 1. Model = the concatenation of the slices: the stream must decode to it, filter writers must emit exactly the single-write bytes, and the reader output must not depend on the size sequence (compared with a single large read). Non-trivial = >= 2 non-empty writes or a flush between writes. Distinct = hash of the case recipe."
+        "history = cycle of Write(n) / Write(empty) / Flush operations partitioning a generated input, for LZMAWriter (5 framings), LZMA2Writer (+/- chunk size, +/- preset dictionary), XZWriter (+/- block size, +/- pre-filters), LZIPWriter (+/- member size), BCJWriter x8 and DeltaWriter, plus a family in which the first write ends 0-699 bytes in front of the physical end of the encoder's window buffer and is followed by flush and more data; then the produced stream is read back with a generated cycle of destination sizes including 0 and 1. Model = the concatenation of the slices: the stream must decode to it, filter writers must emit exactly the single-write bytes, and the reader output must not depend on the size sequence (compared with a single large read). Non-trivial = >= 2 non-empty writes or a flush between writes. Distinct = hash of the case recipe."
     }
 
     fn floors(_tier: Tier) -> Vec<(&'static str, f64)> {
@@ -286,6 +335,7 @@ impl Property for C07 {
             ("xz", 15.0),
             ("lzma2", 15.0),
             ("bcj", 8.0),
+            ("flush_at_window_end", 5.0),
         ]
     }
 
@@ -318,7 +368,23 @@ impl Property for C07 {
         let data = case.data.expand();
         let t = &case.target;
         obs.class(t.name());
-        let (stream, writes, flushes) = t.encode(&data, &case.ops)?;
+        let mut fitted_ops: Option<Vec<Op>> = None;
+        if let Some(back) = case.flush_at_window_end {
+            // probe: a short input, the hook reports the free space of the window buffer at finish
+            let k0 = 1000.min(data.len());
+            let _ = lzma_rust2::verif_api::take_last_finish_gap();
+            let _ = t.encode(&data[..k0], &[Op::W(u32::MAX)])?;
+            let gap = lzma_rust2::verif_api::take_last_finish_gap();
+            if gap != u64::MAX {
+                let first = (k0 as u64 + gap).saturating_sub(back as u64);
+                if first > 0 && (first as usize) < data.len() {
+                    fitted_ops = Some(vec![Op::W(first as u32), Op::Flush, Op::W(u32::MAX)]);
+                    obs.class("flush_at_window_end");
+                }
+            }
+        }
+        let ops: &[Op] = fitted_ops.as_deref().unwrap_or(&case.ops);
+        let (stream, writes, flushes) = t.encode(&data, ops)?;
         obs.class_if(writes >= 2, "multi_write");
         obs.class_if(flushes >= 1, "flush_between");
         obs.class_if(case.sizes.contains(&0), "zero_len_read");
